@@ -159,6 +159,13 @@ type parseOutcome struct {
 func evalParse(c *Concretizer, pc *pCase) (got parseOutcome, want parseOutcome, req []byte) {
 	o := pc.Op
 	o.KeyNonce = pc.Cfg.Nonce != "none"
+
+	// every fourth request for an existing DID names it by a suffix that begins like a DID of the parser's namespace: the
+	// suffix of a request is the text the request says, nothing is taken off it
+	if o.Type != "create" && o.way(4) == 3 {
+		o.SuffixPrefix = pc.Cfg.NS + ":"
+	}
+
 	req, _ = c.buildRequest(&o, 0)
 
 	// the same request with insignificant white space around it (a third of the requests each way): the size
@@ -235,7 +242,7 @@ func evalParse(c *Concretizer, pc *pCase) (got parseOutcome, want parseOutcome, 
 			_ = json.Unmarshal(req, &r)
 			want.Suffix = refModelHash(r.SuffixData, int(p.MultihashAlgorithms[0]))
 		} else {
-			want.Suffix = testSuffix
+			want.Suffix = o.SuffixPrefix + testSuffix
 		}
 
 		want.ID = pc.Cfg.NS + ":" + want.Suffix
